@@ -238,15 +238,19 @@ CHECKS = {
              "IntegrityError in any later run and the only possible failures are those a fresh database has too; a run "
              "equals its batch-free closed form (runOnce_eq_spec); the window of a re-ingesting run is the first run's "
              "(ingest_window); hash rows left by earlier runs never influence a run (runSpec_hashes_irrelevant); "
-             "re-ingesting adds back exactly the removed spans. PARTIAL: the universal 'same PV sequences and shapes as "
-             "the first run' clause is a stated Prop (rerun_same_answer_full), not yet a theorem; it is decided on "
-             "histories of real separate-process runs over one sqlite file (every pair of flag triples on several data "
-             "sets, seeded length 3-4; thorough every triple) against fresh-database runs, and the model is compared "
-             "with the database tables after every run.",
+             "re-ingesting adds back exactly the removed spans; and the answer clause in full (history_same_answer): when "
+             "the first ingesting run computes a window, every history of later runs — any batch sizes, ingesting again or "
+             "not, unique graphs or not — gives, run by run, the status, the spans and links (hence the PV sequences) and "
+             "in unique-graph mode the hash rows (hence the shape classes) of a fresh run with the same unique flag. "
+             "Proof: the removals decide per trace from the set of (id, trace, parent, start, end) cores, re-ingestion "
+             "restores that set, renaming is idempotent. Hypotheses: parents local to their trace; for no-ingest runs "
+             "every span inside the widest window. Tie: histories of real separate-process runs over one sqlite file "
+             "(every pair of flag triples on several data sets, seeded length 3-4; thorough every triple) against "
+             "fresh-database runs, and the model compared with the database tables after every run.",
         ref="DESIGN.md §5 C15",
         note="Trusted: Lean kernel; axioms propext, Quot.sound, Classical.choice; SQLite/SQLAlchemy/file system modelled, "
-             "observed through table dumps after every separate-process run. Completion is proved; answer-equality is "
-             "validated, not proved.",
+             "observed through table dumps after every separate-process run. Which member of a shape class SQLite returns "
+             "is left free.",
         technique="Lean 4 proof (invariant over run histories, closed form) + separate-process differential correspondence + "
                   "fresh-run oracle",
     ),
